@@ -175,6 +175,9 @@ class ModbusUdpProtocol(protocol.DatagramProtocol):
             _logger.debug("Datagram Received: "+ hexlify_packets(data))
         if not self.control.ListenOnly:
             continuation = lambda request: self._execute(request, addr)
+            # datagrams are self contained: what is left of the previous one
+            # must not be prepended to this one (possibly another peer's)
+            self.framer.resetFrame()
             self.framer.processIncomingPacket(data, continuation,
                                               single=self.store.single,
                                               unit=self.store.slaves())
